@@ -16,6 +16,9 @@ from rules import jit
 from rules import a64hsem as T
 from rules import rvhsem as V
 from rules.a64hsem import Lin, M64, add, sub, mul, neg, scale, xor, const, atom, hi, ror, amount
+import os as _os
+
+STRICT_FAMILY = bool(_os.environ.get('RXVERIF_STRICT_FAMILY'))
 
 SLOT = 48
 RCP_MARK = 0x9E3779B97F4A7C15
@@ -361,6 +364,9 @@ def expected(name, d, s, sh, imm):
 
 
 def rule_hsem(ctx, R):
+    if STRICT_FAMILY:
+        R.note('rule_hsem skipped: RXVERIF_STRICT_FAMILY=1 (emitted-code / executor evaluation on terms switched off, see DESIGN.md 9.2)')
+        return
     F, hs = jit.handlers(ctx, 'x86')
     cls = 'randomx::JitCompilerX86'
     R.rule('X86-HSEM', 'for the ten integer register-form instructions and IMUL_RCP the bytes the x86-64 handler emits, disassembled and given their architectural meaning on a register file of terms over r0..r7 (r8..r15), leave in the eight VM '
@@ -497,6 +503,9 @@ def ss_cases(types):
 
 
 def rule_ss_hsem(ctx, R):
+    if STRICT_FAMILY:
+        R.note('rule_ss_hsem skipped: RXVERIF_STRICT_FAMILY=1 (emitted-code / executor evaluation on terms switched off, see DESIGN.md 9.2)')
+        return
     F, hs = jit.handlers(ctx, 'x86')
     cls = 'randomx::JitCompilerX86'
     R.rule('X86-SS-HSEM', 'for each of the 14 SuperscalarHash instruction kinds the bytes generateSuperscalarCode emits, disassembled and given their architectural meaning on terms over r0..r7, compute what specification Table 6.1.1 '
@@ -688,6 +697,9 @@ MEM_IMMS = (0, 8, 0x7FF8, 0x3FF8, 0x4000, 0x1FFFF8, 0x200000, 0x7FFFFFFF, 0x8000
 
 
 def rule_mem_hsem(ctx, R):
+    if STRICT_FAMILY:
+        R.note('rule_mem_hsem skipped: RXVERIF_STRICT_FAMILY=1 (emitted-code / executor evaluation on terms switched off, see DESIGN.md 9.2)')
+        return
     F, hs = jit.handlers(ctx, 'x86')
     cls = 'randomx::JitCompilerX86'
     R.rule('X86-MEM-HSEM', 'for the six memory-form integer instructions and ISTORE the bytes the x86-64 handler emits, disassembled and interpreted on terms, read (write) the 8 bytes at scratchpad + ((src + sext(imm32)) & mask) with the L1 / L2 mask '
@@ -772,6 +784,9 @@ def rule_mem_hsem(ctx, R):
 # CFROUND: bit routing
 
 def rule_cfround(ctx, R, FI):
+    if STRICT_FAMILY:
+        R.note('rule_cfround skipped: RXVERIF_STRICT_FAMILY=1 (emitted-code / executor evaluation on terms switched off, see DESIGN.md 9.2)')
+        return
     """[X86-CFR-BITS] what the bytes of h_CFROUND do to MXCSR, bit by bit"""
     F, hs = jit.handlers(ctx, 'x86')
     cls = 'randomx::JitCompilerX86'
@@ -952,6 +967,9 @@ def fp_show(t):
 
 
 def rule_fp_hsem(ctx, R):
+    if STRICT_FAMILY:
+        R.note('rule_fp_hsem skipped: RXVERIF_STRICT_FAMILY=1 (emitted-code / executor evaluation on terms switched off, see DESIGN.md 9.2)')
+        return
     F, hs = jit.handlers(ctx, 'x86')
     cls = 'randomx::JitCompilerX86'
     R.rule('X86-FP-HSEM', 'for the nine floating-point instructions the bytes the x86-64 handler emits, disassembled and interpreted on a register file of uninterpreted packed-double terms (xmm0-3 = f, xmm4-7 = e, xmm8-11 = a), '
